@@ -117,7 +117,7 @@ def _model_check(case, lines, outs, ev, extra_cls):
         clss = ln["clss"] if "clss" in ln else [ln["cls"]]
         if len(vals) > 1:
             cls.append("two-secrets-on-one-line")
-        if rs is None or any(r == v or not r for r, v in zip(rs, vals)):
+        if rs is None or any((r == v and not _PSEUDO.match(v)) or not r for r, v in zip(rs, vals)):
             if f is None:
                 f = Finding("history/secret-not-replaced:%s:%s" % (ln["form"], "+".join(clss)), "%r -> %r" % (line, o), case)
             continue
@@ -180,6 +180,9 @@ def _one(case, lines, outs, i, line, o, ln, v, c, r, model, inverse, seen_styles
 
 REPLAY = {"history": check_history, "dir": check_dir}
 
+import re as _re
+
+_PSEUDO = _re.compile(r"^netconanRemoved[0-9]+$")  # a secret spelled like a pseudonym may be "replaced" by itself
 _FORMS1 = [f for f in S.POS_FORMS if f.slots == 1 and "exact" not in f.text_kw]
 _FORMS2 = [f for f in S.POS_FORMS if f.slots == 2]
 
@@ -198,6 +201,13 @@ def _case(draw, max_lines=30):
                 same = [p["value"] for p in pool if p.get("cls") == c]
                 if same and draw(st.sampled_from(same)).swapcase() not in core.builtin_reserved():
                     v = draw(st.sampled_from(same)).swapcase()
+            if c == "text" and draw(st.integers(0, 7)) == 0:
+                v = "netconanRemoved%d" % draw(st.integers(0, 6))  # a secret that looks like a pseudonym
+            if c == "text" and draw(st.integers(0, 7)) == 0:
+                same = [p["value"] for p in pool if p.get("cls") == "text"]
+                if same:
+                    base = draw(st.sampled_from(same)).strip("\\")
+                    v = draw(st.sampled_from(["\\" + base, base + "\\"]))
             pool.append({"cls": c, "value": v})
     lines = []
     for _ in range(draw(st.integers(2, max_lines))):
@@ -222,14 +232,14 @@ def _case(draw, max_lines=30):
             form = draw(st.sampled_from(_FORMS2))
             lines.append({"form": form.id, "head": draw(st.integers(0, len(form.heads) - 1)), "trail": draw(st.integers(0, len(form.trails) - 1)), "enc": ["", ""], "lead": draw(st.sampled_from(["", " "])), "values": [v, v2], "clss": [c, p2["cls"]]})
             continue
-        forms = [f for f in _FORMS1 if c in f.classes and (f.reject is None or not f.reject(v)) and (":" not in v or "alphabet_mid" not in f.text_kw)]
+        forms = [f for f in _FORMS1 if c in f.classes and (f.reject is None or not f.reject(v)) and (":" not in v or "alphabet_mid" not in f.text_kw) and ("\\" not in v or not any('"' in h for h in f.heads))]
         form = draw(st.sampled_from(forms))
         lines.append(
             {
                 "form": form.id,
                 "head": draw(st.integers(0, len(form.heads) - 1)),
                 "trail": draw(st.integers(0, len(form.trails) - 1)),
-                "enc": list(draw(st.sampled_from(S.ENCLOSINGS))) if form.enclose and draw(st.booleans()) else ["", ""],
+                "enc": list(draw(st.sampled_from(S.ENCLOSINGS))) if form.enclose and draw(st.booleans()) and "\\" not in v else ["", ""],
                 "lead": draw(st.sampled_from(["", "", " ", "   ", "\t"])),
                 "value": v,
                 "cls": c,
